@@ -1,4 +1,8 @@
 """C12 frequent items bounds bracket the truth (DESIGN.md section 5 C12): bookkeeping clauses."""
+import json
+import os
+import a4_twin
+from vlib.core import VERIF
 import validators
 import fi_rules as F
 import cowrite
@@ -28,6 +32,7 @@ def run(facts, tier):
         ("probe masks", F.probe_masks, 6, "every probe index is reduced with the mask of the current table size"),
         ("argument checkers", lambda fa: validators.checker_obligations(fa, ["fi"]), 4, "the argument / image checkers of the family reject exactly the reviewed ranges (spec/checkers.json)"),
         ("tautologies", lambda fa: generic_lints.tautologies(fa, ('fi/',)), 2, "no comparison / assignment / min-max with two identical operands, no if-else with identical arms"),
+        ("serializer twins", lambda fa: [o for o in a4_twin.obligations(fa, set(json.load(open(os.path.join(VERIF, "spec", "twin_armed.json")))["armed"])) if "frequent_items" in o["key"]], 1, "stream and byte writers of the frequent-items sketch emit the same fields (a round trip through either restores the configured map sizes, so the published epsilon still holds)"),
         ("hazards", lambda fa: hazard_lints.hazards(fa, ('fi/',)), 2, "no 64-bit value silently narrowed at a call of a library function, no numeric_limits<floating>::min() as a lowest value, no random engine constructed inside a loop, no read of a moved-from parameter, no unguarded unsigned `x - c` loop bound (reviewed instances in spec/hazards.json)"),
         ("duplicate operands", lambda fa: generic_lints.duplicate_conjuncts(fa, ('fi/',)), 2, "no logical chain tests the same operand twice (copy-paste of the wrong peer)"),
         ("moves from lvalue operands", lambda fa: generic_lints.moves_from_lvalue_operands(fa, ['fi']), 1, "in the lvalue instantiation of a forwarding-reference operand nothing is std::move-d out of the operand (conditional_forward copies there): a sketch passed to be read keeps its items / summaries"),
